@@ -58,6 +58,10 @@ def expr_src(e, ctx=0):
         return e[1]
     if k == 'idx':
         return '%s[%s]' % (e[1], expr_src(e[2]))
+    if k == 'deref':
+        return '*%s' % e[1]
+    if k == 'addr':
+        return '&%s' % e[1]
     if k == 'bin':
         s = '%s %s %s' % (expr_src(e[2], 1), e[1], expr_src(e[3], 1))
         return '(' + s + ')' if ctx else s
@@ -65,6 +69,8 @@ def expr_src(e, ctx=0):
         return '%s%s' % (e[1], expr_src(e[2], 1)) if e[2][0] in ('num', 'var', 'idx') or True else ''
     if k == 'inc':
         lv = expr_src(e[2], 1)
+        if e[2][0] == 'deref':
+            lv = '(' + lv + ')'
         return {'++x': '++' + lv, 'x++': lv + '++', '--x': '--' + lv, 'x--': lv + '--'}[e[1]]
     if k == 'asg':
         s = '%s %s %s' % (expr_src(e[2], 1), e[1], expr_src(e[3], 0 if e[3][0] != 'asg' else 1))
@@ -150,6 +156,7 @@ class Gen:
         self.arrays = ['arr'] if o['arrays'] and r.random() < 0.6 else []
         self.tables = ['tab'] if o['arrays'] and r.random() < 0.5 else []
         self.counters = ['i', 'j']
+        self.ptrs = ['p', 'q'] if o['pointers'] and r.random() < 0.7 else []
         self.hwregs = []
         q = lambda: ('superchip' if o['superchip'] and r.random() < 0.5 else '')
         for n in self.uchars:
@@ -164,6 +171,8 @@ class Gen:
             p.globals.append(('const unsigned char', n, [r.randrange(256) for _ in range(8)], 8, ''))
         for n in self.counters:
             p.globals.append(('unsigned char', n, None, None, ''))
+        for n in self.ptrs:
+            p.globals.append(('unsigned char *', n, None, None, ''))
         if o['hw']:
             p.globals.append(('unsigned char *const', 'HW0', 0x02, None, ''))
             p.globals.append(('unsigned char *const', 'HW1', 0x10, None, ''))
@@ -264,6 +273,9 @@ class Gen:
             return ('var', r.choice(self.uchars + self.schars))
         if k < 0.78:
             return ('var', r.choice(['X', 'Y']))
+        if k < 0.84 and getattr(self, 'ptrs', None):
+            pn = r.choice(self.ptrs)
+            return ('deref', pn) if r.random() < 0.5 else ('idx', pn, r.choice([('var', 'Y'), ('num', 0), ('num', 1)]))
         if k < 0.90 and (self.arrays or self.tables):
             arr = r.choice(self.arrays + self.tables)
             ix = ('var', r.choice(['X', 'Y'])) if r.random() < 0.6 else ('num', r.randrange(8))
@@ -332,6 +344,18 @@ class Gen:
     def simple_stmt(self, depth):
         r = self.r
         k = r.random()
+        if getattr(self, 'ptrs', None) and r.random() < 0.22:
+            pn = r.choice(self.ptrs)
+            kk = r.random()
+            if kk < 0.3:
+                return ('expr', ('asg', '=', ('var', pn), ('addr', r.choice(self.uchars[:4]))))
+            if kk < 0.45 and (self.arrays or self.tables):
+                return ('expr', ('asg', '=', ('var', pn), ('var', r.choice(self.arrays + self.tables))))
+            if kk < 0.7:
+                return ('expr', ('asg', r.choice(['=', '=', '+=', '|=']), ('deref', pn), self.expr8(1)))
+            if kk < 0.85:
+                return ('expr', ('asg', '=', ('idx', pn, r.choice([('var', 'Y'), ('num', 0), ('num', 1)])), self.expr8(1)))
+            return ('expr', ('inc', r.choice(['x++', '++x', 'x--']), ('deref', pn)))
         if k < 0.45:
             return ('expr', ('asg', '=', self.lv8(), self.expr8(self.o['max_depth'])))
         if k < 0.60:
@@ -477,6 +501,15 @@ class Gen:
         reg = r.choice(['X', 'Y'])
         if self.in_loop and reg not in self.free_counters:
             reg = None
+        if getattr(self, 'ptrs', None) and r.random() < 0.35:
+            # two names for one cell: a variable and a pointer to it; a read through one name, a write
+            # through the other, the same read again
+            pn = r.choice(self.ptrs)
+            v = V(r.choice(self.uchars[:4]))
+            tgt = r.choice([V(reg)] if reg else []) if (reg and r.random() < 0.5) else u()
+            if r.random() < 0.5:
+                return [asg(V(pn), ('addr', v[1])), asg(tgt, v), asg(('deref', pn), N(r.randrange(1, 9))), asg(tgt, v)]
+            return [asg(V(pn), ('addr', v[1])), asg(tgt, ('deref', pn)), asg(v, r.choice([N(r.randrange(1, 9)), V('X')])), asg(tgt, ('deref', pn))]
         k = r.randrange(18)
         if k == 17 and reg:
             # a constant comparison the optimiser can decide, then a change of the register as the very
